@@ -79,6 +79,14 @@ def project(vecs):
     return out
 
 
+def absx_classes():
+    from artap.algorithm_NSGAII import IndividualNSGAII
+    from artap.algorithm_genetic import IndividualEpsMOEA
+    from artap.algorithm_swarm import IndividualSwarm
+    from artap.individual import Individual
+    return [Individual, IndividualNSGAII, IndividualEpsMOEA, IndividualSwarm, Individual]
+
+
 class Pairs(Part):
     name = "pairs"
     trace_module = "IdentityTrace"
@@ -128,7 +136,12 @@ class Pairs(Part):
                 import numpy as np
                 return [np.float64(x) for x in vec]
             return list(vec)
-        a, b = Individual(maybe_int(va)), Individual(maybe_int(vb))
+        # the two points may be objects of different design classes (a plain Individual read back from a store or put in place of a failed
+        # design next to the algorithm's own subclass): what they are compared by is their coordinates
+        classes = absx_classes()
+        h = rng.randrange(25)
+        cls_a, cls_b = (classes[h % 5], classes[h // 5]) if case.get("mixed", True) else (Individual, Individual)
+        a, b = cls_a(maybe_int(va)), cls_b(maybe_int(vb))
         if rng.random() < 0.25:
             # ids are bookkeeping, not identity of the design point: designs read back from a store (from_dict keeps the stored id while a new
             # session's counter restarts) or deep copies that were moved afterwards share an id with a different point
@@ -141,7 +154,7 @@ class Pairs(Part):
                 b = moved
         if case.get("relocated"):
             # the design was somewhere else first and has been hashed there (as offspring are before mutation replaces their vector)
-            a = Individual([v + 1.0 for v in va])
+            a = cls_a([v + 1.0 for v in va])
             hash(a)
             len({a})
             a.vector = list(va)
@@ -257,10 +270,10 @@ class Lists(Part):
                 continue
             v, a = next(it)
             if o["op"] == "append":
-                pop.append(Individual(list(v)))
+                pop.append(rng.choice(absx_classes())(list(v)))
                 popabs.append(a)
             elif o["op"] == "remove":
-                probe = Individual(list(v))
+                probe = rng.choice(absx_classes())(list(v))
                 before = list(pop)
                 ev = {"ev": "remove", "lst": list(popabs), "p": a, "res": [], "found": False, "exc": ""}
 
